@@ -99,35 +99,29 @@ MetricsFor(mm) ==
   \cup {MD("minkowski", p, w, NoArg, NoArg) : p \in {1, 2}, w \in {NoArg, WVec(mm)}}
   \cup {MD("seuclidean", 2, NoArg, VVec(mm), NoArg), MD("mahalanobis", 2, NoArg, NoArg, VIMat(mm))}
 
-PatternCases ==
-  {[bs |-> bs, widths |-> ws, m |-> m,
-    sim |-> [k \in 1..Len(ws) |-> MkArr(s, k, 0, bs, ws[k])],
-    obs |-> [k \in 1..Len(ws) |-> MkArr(s, k, -1, 1, ws[k])]] :
-     bs \in 1..MaxBS, ws \in WidthSeqs, s \in Seeds, m \in UNION {MetricsFor(TotalW(w2)) : w2 \in WidthSeqs}}
+PatternCase(c) ==
+  \E bs \in 1..MaxBS, ws \in WidthSeqs, s \in Seeds : \E m \in MetricsFor(TotalW(ws)) :
+     c = [bs |-> bs, widths |-> ws, m |-> m,
+          sim |-> [k \in 1..Len(ws) |-> MkArr(s, k, 0, bs, ws[k])],
+          obs |-> [k \in 1..Len(ws) |-> MkArr(s, k, -1, 1, ws[k])]]
 
 \* exhaustive data over TinyVals for the smallest shapes (bs <= 2, total width <= 2)
 TinyWidths == {<<0>>, <<1>>, <<2>>, <<0, 0>>, <<0, 1>>, <<1, 0>>}
 FromFlat(f, off, n, w) ==
   IF w = 0 THEN [sh |-> <<n>>, d |-> [i \in 1..n |-> f[off + i]]]
   ELSE [sh |-> <<n, w>>, d |-> [i \in 1..(n * w) |-> f[off + i]]]
-TinyCases ==
-  IF TinyVals = {} THEN {} ELSE
-  UNION {UNION {
-    LET mm == TotalW(ws)
-        tot == (bs + 1) * mm
-        off(k, n) == n * SumSeq([q \in 1..(k - 1) |-> Cols(ws[q])])
-    IN {[bs |-> bs, widths |-> ws, m |-> m,
-         sim |-> [k \in 1..Len(ws) |-> FromFlat(f, off(k, bs), bs, ws[k])],
-         obs |-> [k \in 1..Len(ws) |-> FromFlat(f, bs * mm + off(k, 1), 1, ws[k])]] :
-          f \in [1..tot -> TinyVals], m \in MetricsFor(mm)}
-    : ws \in TinyWidths} : bs \in 1..2}
-
-Cases == {c \in PatternCases : Len(c.m.w) \in {0, TotalW(c.widths)} /\ Len(c.m.V) \in {0, TotalW(c.widths)}
-                               /\ Len(c.m.VI) \in {0, TotalW(c.widths)}} \cup TinyCases
+Off(ws, k, n) == n * SumSeq([q \in 1..(k - 1) |-> Cols(ws[q])])
+TinyCase(c) ==
+  /\ TinyVals # {}
+  /\ \E bs \in 1..2, ws \in TinyWidths :
+       \E f \in [1..((bs + 1) * TotalW(ws)) -> TinyVals], m \in MetricsFor(TotalW(ws)) :
+         c = [bs |-> bs, widths |-> ws, m |-> m,
+              sim |-> [k \in 1..Len(ws) |-> FromFlat(f, Off(ws, k, bs), bs, ws[k])],
+              obs |-> [k \in 1..Len(ws) |-> FromFlat(f, bs * TotalW(ws) + Off(ws, k, 1), 1, ws[k])]]
 
 \* ---- behaviour -------------------------------------------------------------------------
 None == [sh |-> <<0>>, d |-> <<>>]
-Init == case \in Cases /\ out = None /\ phase = "given"
+Init == (PatternCase(case) \/ TinyCase(case)) /\ out = None /\ phase = "given"
 
 \* node.generate(with_values = summaries): one evaluation of the node's operation
 Eval ==
